@@ -124,3 +124,51 @@ Definition store_dq (body : list N) : option (list N) :=
 (* the value of the literal: CssString(stored, Double) through From<CssString> for Value *)
 Definition literal_value (body : list N) : option cssstring :=
   option_map (fun v => pref_dquotes (mkStr v QDouble)) (store_dq body).
+
+(* ---- single-quoted literals (sass_string_sq): the alternatives differ from dq_parts in three places:
+   the escaped own quote is backslash-apostrophe, a raw double quote is an ordinary part, and
+   backslash-newline (line continuation) is an empty part ---- *)
+Definition next_part_sq (l : list N) : option (list N * list N) :=
+  match l with
+  | [] => None
+  | c :: r =>
+      if negb (is_special c) then Some (take_simple l)
+      else if c =? 92 then
+        match r with
+        | [] => None
+        | d :: r' =>
+            if d =? 39 then Some ([39], r')
+            else if d =? 10 then Some ([], r')
+            else match escaped_char r with
+                 | Some (ch, rest) => Some (normalized_q ch, rest)
+                 | None => None
+                 end
+        end
+      else if c =? 34 then Some ([34], r)
+      else None
+  end.
+
+Fixpoint parts_fuel_sq (fuel : nat) (l : list N) : option (list (list N)) :=
+  match l with
+  | [] => Some []
+  | _ =>
+      match fuel with
+      | O => None
+      | S f =>
+          match next_part_sq l with
+          | Some (p, rest) => option_map (cons p) (parts_fuel_sq f rest)
+          | None => None
+          end
+      end
+  end.
+
+Definition store_sq (body : list N) : option (list N) :=
+  option_map (fun ps => concat (cleanup ps)) (parts_fuel_sq (S (length body)) body).
+
+Definition literal_value_sq (body : list N) : option cssstring :=
+  option_map (fun v => pref_dquotes (mkStr v QSingle)) (store_sq body).
+
+Definition store_lit (single : bool) (body : list N) : option (list N) :=
+  if single then store_sq body else store_dq body.
+Definition literal_value_of (single : bool) (body : list N) : option cssstring :=
+  if single then literal_value_sq body else literal_value body.
